@@ -360,7 +360,11 @@ def batch_task(family, texts, stdin_text):
                         if res is not None:
                             break
                 if res is None:
-                    raise MachineryError('disagreement only in the batched form: %r level %d' % (texts[k], lv))
+                    # only the batched form disagrees (emitted text that closes a module early, for instance): the
+                    # stand-alone executable is what the property talks about - counted, never a verdict
+                    st.inc('disagreements_in_batched_form_only')
+                    if len(st.samples) < 6:
+                        st.sample({'batched_form_only': texts[k], 'level': lv})
         if res is not None:
             st.violate(Violation('C03', 'compile', '%s:L%d:%s' % (family, lv, res[0]),
                                  {'kind': 'compile', 'prog': texts[k], 'level': lv, 'stdin': stdin_text}, res[1], res[2]))
@@ -472,7 +476,8 @@ def run_c03(tier):
                   'levels': [0, 1, 2], 'stdin': 'ab\\nc', 'emitted_sources': st.n.get('emitted', 0),
                   'rustc_batches': st.n.get('rustc_batches', 0), 'rustc_standalone': st.n.get('rustc_standalone', 0),
                   'optimizer_errors_consistent_with_level0_error': st.n.get('opterr_consistent', 0),
-                  'interpreter_step_budget': B, 'loop_timeout_s': LOOP_TIMEOUT},
+                  'interpreter_step_budget': B, 'loop_timeout_s': LOOP_TIMEOUT,
+                  'disagreements_in_batched_form_only': st.n.get('disagreements_in_batched_form_only', 0)},
         'distinct_outcomes': sorted(st.sets.get('kinds', ())),
         'samples': ['흑♥ 항.', '형 형... 항...♥ 항...♥! 흑 항.♡', GADGETS[0][1] + ' ' + TRIGGERS[0][1] + ' 항.', fam_dispatch()[4]],
     }
